@@ -1,8 +1,8 @@
 #!/verif/.venv/bin/python
 # Replay of a solver counterexample against the unmodified code (no shims).
-# property=C06 kernel=program label=nested:global_det
+# property=C06 kernel=program label=nested_all_local:atom_det
 import sys
 sys.path[:0] = ['/repo' + "/pulser-core", '/repo' + "/pulser-simulation", "/verif"]
 from symx.replay import replay
-sys.exit(replay(check='checks.c06', kernel='program', shape={'program': 'xy_slm_two', 'ext': [0, 3]},
-                assignment={'a0': '1/1024', 'd0': '1/1024', 'a1': '1/1024', 'd1': '0/1', 'a2': '1/1024', 'd2': '-1/512'}, label='nested:global_det'))
+sys.exit(replay(check='checks.c06', kernel='program', shape={'program': 'two_glob_ising', 'ext': [0, 3]},
+                assignment={'a0': '1/1024', 'd0': '0/1', 'a1': '1/1024', 'd1': '-1/1024', 'a2': '1/1024', 'd2': '0/1'}, label='nested_all_local:atom_det'))
